@@ -160,6 +160,7 @@ func (b *BloomSearchEngine) merge(ctx context.Context) (*MergeStats, error) {
 	var postCommitCleanupErr error
 	if len(writeOps) > 0 {
 		b.logger.Debug("merge updating metastore", "newFiles", len(writeOps), "removedFiles", len(deleteOps))
+		verifPoint("merge.beforeUpdate")
 		if err := b.metaStore.Update(ctx, writeOps, deleteOps); err != nil {
 			// Nothing committed: the merge outputs were published but never
 			// referenced, so tombstone them. Sources stay referenced and
@@ -170,6 +171,7 @@ func (b *BloomSearchEngine) merge(ctx context.Context) (*MergeStats, error) {
 			return nil, fmt.Errorf("failed to update metastore after merge: %w", err)
 		}
 		b.logger.Debug("merge metastore update committed")
+		verifPoint("merge.afterUpdate")
 
 		// The merge is committed from here on. Tombstone failures are
 		// garbage-collection failures, not merge failures: report them via
